@@ -16,6 +16,10 @@ import concurrent.futures
 TIMEOUT_EXIT = 124  # the scripted test's way of saying "I would hang": the future raises TimeoutError
 
 
+class Budget(BaseException):
+    """more candidates were scheduled than the scenario allows: the run under test does not come to an end"""
+
+
 class Sched:
     def __init__(self, nums):
         self.nums = list(nums)
@@ -36,6 +40,7 @@ class ShimState:
         self.ran = []          # orders of the candidates whose run() was executed
         self.cancelled = []
         self.scheduled = 0
+        self.max_scheduled = 60000
         self.polls = 0
         self.waits = 0
         self.run_cwds = []     # cwd of every interestingness test invocation
@@ -155,6 +160,8 @@ class FakePool:
 
     def schedule(self, fn, args=(), kwargs=None, timeout=None):
         self.st.scheduled += 1
+        if self.st.scheduled > self.st.max_scheduled:
+            raise Budget()
         return FakeFuture(self.st, fn, timeout)
 
     def stop(self):
